@@ -15,6 +15,7 @@ import (
 	"verifharness/ev"
 	"verifharness/gen"
 	"verifharness/obs"
+	"verifharness/spec"
 )
 
 // C05 — library round trip (DESIGN.md section 10, C05):
@@ -358,6 +359,31 @@ func c05Decoded(c *ev.Collector, rt *rapid.T) {
 	avoidOneWay(g)
 	sm := g.SwitchMessage()
 	injectONFFields(rt, g, sm.Tree)
+	if gen.Pick(rt, "bundle_add_with_property_data", 10) == 0 {
+		// a value only a decoder can make: a bundle-add whose experimenter properties carry data (the field is
+		// not exported and has no setter). The frame comes from the model; what Parse makes of it is the value.
+		_, tree := g.MessageOf("bundle_add")
+		props := 0
+		for _, k := range tree.Kids {
+			if k.Kind == "bundle_prop.experimenter" {
+				props++
+			}
+		}
+		if props == 0 {
+			tree.Add(spec.N("bundle_prop.experimenter", spec.U("experimenter", uint64(g.U32("prop_exp"))), spec.U("exp_type", uint64(g.U32("prop_type"))), spec.B("data", nil)))
+		}
+		for _, k := range tree.Kids {
+			if k.Kind == "bundle_prop.experimenter" {
+				for i := range k.F {
+					if k.F[i].Name == "data" {
+						k.F[i] = spec.B("data", g.Bytes("prop_data", g.Int("prop_data_len", 1, 21)))
+					}
+				}
+			}
+		}
+		sm = gen.SwitchMsg{Kind: "bundle_add+property_data", Tree: tree}
+		c.Label("bundle_property_with_data")
+	}
 	wire, big := encodeModel(sm.Tree)
 	if big {
 		c.Excluded("model size > 65535")
